@@ -372,21 +372,21 @@ pub struct Binary;
 const NAMES: [&str; 6] = ["plain.slice", "with space.slice", "quo\"te.slice", "back\\slash.slice", "ünï 😀.slice", "tab\there.slice"];
 impl Family for Binary {
     fn name(&self) -> String {
-        "binary/6 file names x 13 program shapes (clean, warnings, errors, notes, missing file, duplicate file, directory, two files, a generator that cannot be started, one that exits 1, a failing generator next to warnings, a generator that writes to its stderr, a healthy generator whose reply carries a diagnostic) x 12 configurations through the real slicec binary".into()
+        "binary/6 file names x 14 program shapes (clean, warnings, errors, notes, missing file, duplicate file, directory, two files, a generator that cannot be started, one that exits 1, a failing generator next to warnings, a generator that writes to its stderr, a healthy generator whose reply carries a diagnostic, a program with 256 errors) x 12 configurations through the real slicec binary".into()
     }
     fn len(&self) -> u64 {
-        6 * 13 * 12
+        6 * 14 * 12
     }
     fn hang_secs(&self) -> f64 {
         60.0
     }
     fn describe(&self, idx: u64) -> Value {
-        json!({"file_name": NAMES[(idx % 6) as usize], "shape": (idx / 6) % 13, "argv_options": config(idx / 78).argv()[1..].to_vec()})
+        json!({"file_name": NAMES[(idx % 6) as usize], "shape": (idx / 6) % 14, "argv_options": config(idx / 84).argv()[1..].to_vec()})
     }
     fn run(&self, idx: u64) -> CaseOut {
         let name = NAMES[(idx % 6) as usize];
-        let shape = (idx / 6) % 13;
-        let cfg = config(idx / 78);
+        let shape = (idx / 6) % 14;
+        let cfg = config(idx / 84);
         let mut out = CaseOut::new(hash_str(&format!("c14bin{idx}")));
         out.validated = 1;
         out.nontrivial = true;
@@ -396,6 +396,8 @@ impl Family for Binary {
             1 | 10 => "module M\n[deprecated(\"q\\\"uote\")] struct D {}\nstruct U { d: D }\n/// {@link Nope}\nstruct L {}\n".to_string(),
             8 | 9 | 11 | 12 => "module M\nstruct S {}\n".to_string(),
             2 => "module M\ncompact struct E {}\nstruct F { a: Nope }\n".to_string(),
+            // 256 errors: an exit status computed from the count would be 0
+            13 => format!("module M\nstruct Many {{\n{}}}\n", (0..256).map(|i| format!("  a{i}: Nope{i}\n")).collect::<String>()),
             3 => "module M\nstruct A { b: B }\nstruct B { a: A }\n".to_string(),
             _ => "module M\n\t[deprecated] struct D {}\n\tstruct U { d: D? }\n".to_string(),
         };
@@ -501,7 +503,7 @@ impl Family for Binary {
             out.violate("c14/binary/exit-status", format!("exit status {code} with {errors} error(s) emitted\n{}", input()));
         }
         // expected presence per shape
-        let exp_err = matches!(shape, 2 | 3 | 4 | 6 | 7 | 8 | 9 | 10 | 11);
+        let exp_err = matches!(shape, 2 | 3 | 4 | 6 | 7 | 8 | 9 | 10 | 11 | 13);
         if exp_err != (errors > 0) {
             out.violate("c14/binary/expected-errors", format!("shape {shape}: errors expected {exp_err}, {errors} emitted\n{}", input()));
         }
